@@ -83,22 +83,44 @@ let () =
         { model = show_res (z_tensordot_axes sa sb fa fb axa axb); spec = show_optv sp;
           dom = posb sa && posb sb && sp <> None }
     | _ -> failwith "tdotx"));
-  let diag is_trace = (fun a -> match a with
-    | [_; x; o; a1; a2] ->
+  (* (off, ax1, ax2) given separately for the model (the header's defaults where omitted) and the spec (NumPy's) *)
+  let diag_core is_trace x (off, ax1, ax2) (soff, sax1, sax2) =
         let (s, d) = getA x in let f = accessor s d in
-        let off = getI o and ax1 = getI a1 and ax2 = getI a2 in
         let n = len s in
         let nz z = let v = int_of_z z in if v < 0 then v + n else v in
-        let n1 = nz ax1 and n2 = nz ax2 in
+        let n1 = nz sax1 and n2 = nz sax2 in
         let ok = n1 >= 0 && n1 < n && n2 >= 0 && n2 < n in
         let sp = if not ok then None
-          else if is_trace then z_np_trace s f off (nat_of_int n1) (nat_of_int n2)
-          else z_np_diagonal s f off (nat_of_int n1) (nat_of_int n2) in
+          else if is_trace then z_np_trace s f soff (nat_of_int n1) (nat_of_int n2)
+          else z_np_diagonal s f soff (nat_of_int n1) (nat_of_int n2) in
         let m = if is_trace then z_trace s f off ax1 ax2 else z_diagonal s f off ax1 ax2 in
         (* theorem domain: any offset; trace needs a non-empty diagonal *)
-        let e = if ok then int_of_z (np_diag_len s off (nat_of_int n1) (nat_of_int n2)) else (-1) in
+        let e = if ok then int_of_z (np_diag_len s soff (nat_of_int n1) (nat_of_int n2)) else (-1) in
         { model = show_res m; spec = show_optv sp;
-          dom = posb s && sp <> None && (if is_trace then e >= 1 else true) }
+          dom = posb s && sp <> None && (if is_trace then e >= 1 else true) } in
+  let diag is_trace = (fun a -> match a with
+    | [_; x; o; a1; a2] -> let t = (getI o, getI a1, getI a2) in diag_core is_trace x t t
     | _ -> failwith "diag") in
   register "trace" (diag true);
-  register "diagonal" (diag false)
+  register "diagonal" (diag false);
+  register "trace_ct" (diag true);
+  register "diagonal_ct" (diag false);
+  (* argument forms with omitted arguments: model = the header's default template arguments, spec = NumPy's defaults *)
+  let forms is_trace = (fun a -> match a with
+    | [_; x] -> diag_core is_trace x (default_offset, default_axis1, default_axis2) (np_default_offset, np_default_axis1, np_default_axis2)
+    | [_; x; o] -> diag_core is_trace x (getI o, default_axis1, default_axis2) (getI o, np_default_axis1, np_default_axis2)
+    | [_; x; o; a1] -> diag_core is_trace x (getI o, getI a1, default_axis2) (getI o, getI a1, np_default_axis2)
+    | _ -> failwith "diag forms") in
+  List.iter (fun sfx -> register ("trace_" ^ sfx) (forms true); register ("diagonal_" ^ sfx) (forms false)) ["d"; "o"; "oc"; "oa"];
+  let tdot_n name (nm : nat option) (ns : nat option) = register name (two (fun _ sa sb fa fb rest ->
+    let nm = (match nm with Some n -> int_of_nat n | None -> int_of_z (getI (List.hd rest))) in
+    let ns = (match ns with Some n -> int_of_nat n | None -> nm) in
+    let la = len sa and lb = len sb in
+    if ns < 0 || ns > la || ns > lb || nm > la || nm > lb then { model = "trap"; spec = "unspecified"; dom = false } else begin
+      let axa = List.init ns (fun i -> nat_of_int (la - ns + i)) and axb = List.init ns nat_of_int in
+      let sp = z_np_tensordot sa sb fa fb axa axb in
+      { model = show_res (z_tensordot_int sa sb fa fb (nat_of_int nm)); spec = show_optv sp;
+        dom = posb sa && posb sb && sp <> None } end)) in
+  tdot_n "tdot_d" (Some default_tensordot_axes) (Some np_default_tensordot_axes);
+  tdot_n "tdot_ct" None None;
+  register "tdotx_ct" (Hashtbl.find handlers "tdotx")
